@@ -340,6 +340,47 @@ def _m(wb, cx):
     return True
 
 
+@db("population.name_is_code_name_without_page", "reject")
+def _m(wb, cx):
+    """a population named after a framework quantity that has NO databook page (a function parameter, a characteristic that is only reported, ...)"""
+    if "Population Definitions" not in wb.sheetnames:
+        return False
+    cands = [c for df in (cx.fw.comps, cx.fw.characs, cx.fw.pars) for c in df.index if _isna(df.at[c, "databook page"])]
+    name = cx.pick(cands)
+    if name is None:
+        return False
+    wb["Population Definitions"].cell(row=2, column=1).value = name
+    return True
+
+
+@db("units.other_timescale", "reject")
+def _m(wb, cx):
+    """the units of a row name the right kind of quantity but another time scale than the framework's (per month instead of per year, ...)"""
+    import re as _re
+
+    cands = []
+    for code in cx.tdves():
+        t = _table(wb, cx, code)
+        if not t or "units" not in t[2] or not t[4]:
+            continue
+        ws, row, heads, years, rows = t
+        for r_ in rows:
+            v = ws.cell(row=r_, column=heads["units"]).value
+            if isinstance(v, str) and _re.search(r"\((per )?(year|years|month|months|week|weeks|day|days)\)", v.lower()):
+                cands.append((ws, r_, heads["units"], v))
+    pk = cx.pick(cands)
+    if pk is None:
+        return False
+    ws, r_, col, v = pk
+    m = _re.search(r"\((per )?(\w+)\)", v)
+    per, unit = m.group(1) or "", m.group(2).lower()
+    plural = unit.endswith("s")
+    base = unit[:-1] if plural else unit
+    other = cx.r.choice([u for u in ("year", "month", "week", "day") if u != base])
+    ws.cell(row=r_, column=col).value = v[: m.start()] + "(" + per + other + ("s" if plural else "") + ")" + v[m.end():]
+    return True
+
+
 @db("population.type_unknown", "reject")
 def _m(wb, cx):
     if "Population Definitions" not in wb.sheetnames:
